@@ -71,6 +71,9 @@ pub struct HsPlan {
     pub topic_alias_max: Option<u16>,
     pub retain_available: Option<bool>,
     pub sub_ids_available: Option<bool>,
+    /// v5 CONNACK Session Expiry Interval (the server's own value; the client's CONNECT value
+    /// stays the one a later DISCONNECT is judged against)
+    pub session_expiry: Option<u32>,
 }
 
 impl Default for HsPlan {
@@ -88,6 +91,7 @@ impl Default for HsPlan {
             topic_alias_max: None,
             retain_available: None,
             sub_ids_available: None,
+            session_expiry: None,
         }
     }
 }
@@ -1077,6 +1081,9 @@ macro_rules! v5_server {
                 }
                 if let Some(v) = plan2.max_packet_size {
                     p.max_packet_size = Some(v);
+                }
+                if let Some(v) = plan2.session_expiry {
+                    p.session_expiry_interval_secs = Some(v);
                 }
             });
             Ok::<_, TestErr>(ack)
